@@ -64,7 +64,9 @@ def ll_cases(rng, count, sizes):
             pts.append([b + x for b, x in zip(base, d)])
         cases.append({"fn": "lltable", "n": n, "W": W, "N": n // W,
                       "clusters": [{"b1": f["b1"], "b2": f["b2"], "e": f["e"], "mu": f["mu"],
-                                    "theta": f["theta"].tolist()} for f in clusters],
+                                    "theta": f["theta"].tolist(), "stale": (c % 3 == 1 and k % 2 == 0)}
+                                   for k, f in enumerate(clusters)],
+                      "evaluate_twice": c % 3 == 2,
                       "points": pts})
     return cases
 
